@@ -24,14 +24,15 @@ import (
 )
 
 type session struct {
-	spec   *sim.Spec
-	in     *bufio.Reader
-	out    *bufio.Writer
-	ord    int
-	mode   string // exec | config
-	dev    cli.Device
-	start  time.Time
-	reload string // none | pending
+	spec    *sim.Spec
+	in      *bufio.Reader
+	out     *bufio.Writer
+	ord     int
+	mode    string // exec | config
+	dev     cli.Device
+	start   time.Time
+	reload  string // none | pending
+	curLine string // command being answered
 	// linux
 	lastStatus int
 	ps1Set     bool
@@ -55,6 +56,9 @@ func main() {
 	s := &session{spec: spec, in: bufio.NewReader(os.Stdin),
 		out: bufio.NewWriter(os.Stdout), mode: "exec", start: time.Now(),
 		reload: "none", modified: spec.Modified}
+	if spec.ReloadPending {
+		s.reload = "pending"
+	}
 	s.dev = cli.NewDevice(spec)
 	if spec.LingerMs > 0 {
 		// Outlive the tool: ignore the hang-up of the pty and stay for a
@@ -103,6 +107,7 @@ func (s *session) readLine() string {
 	}
 	line = strings.TrimRight(line, "\r\n")
 	s.ord++
+	s.curLine = line
 	if p := s.spec.Park; p != nil && p.Ord == s.ord {
 		os.WriteFile(p.File+".at", []byte(fmt.Sprint(os.Getpid())), 0644)
 		for {
@@ -403,7 +408,7 @@ func bannerText(kind string, hh ...bool) string {
 
 func (s *session) bannerAt() *sim.Banner {
 	for i := range s.spec.Banners {
-		if s.spec.Banners[i].Ord == s.ord {
+		if b := &s.spec.Banners[i]; b.Cmd != "" && b.Cmd == s.curLine || b.Cmd == "" && b.Ord == s.ord {
 			return &s.spec.Banners[i]
 		}
 	}
@@ -470,6 +475,13 @@ func (s *session) ciscoReply(line, output string) {
 			time.Sleep(15 * time.Millisecond)
 		}
 		s.w("\r\n%s%s", output, p)
+	case b.Form == "in-output":
+		// In the middle of a long output, at a line boundary.
+		lines := strings.SplitAfter(output, "\r\n")
+		k := len(lines) / 2
+		s.w("%s\r\n%s", line, strings.Join(lines[:k], ""))
+		s.writeChunked(bt, b.Chunk)
+		s.w("%s%s", strings.Join(lines[k:], ""), p)
 	case b.Form == "after-prompt":
 		s.w("%s\r\n%s%s", line, output, p)
 		s.flush()
